@@ -189,13 +189,13 @@ def exhaustive_relations():
         yield mk("a", q, v, a, p)
 
 def value_cases(tier, rng, prefix, conv=False):
-    """cases for rel-lossy (and, with conv=True, the in-domain part for rel-lossy-conv)"""
+    """cases for rel-lossy and (conv=True: about half as many random ones) rel-lossy-conv; both streams take
+    the malformed values too -- the conversions are modelled (RelConv.v), not only specified"""
     cases = []
     seen = set()
     def add(rs):
         s = rels_s(rs)
         if s in seen: return
-        if conv and not relations_valid(rs): return     # the conversion clauses are about in-domain values only
         seen.add(s); cases.append((f"{prefix}{len(cases)}", [s]))
     # hand-picked corners
     a, b, c = mk("a"), mk("b", "any"), mk("c", None, ("le", None, "1.0", "1"))
@@ -210,8 +210,7 @@ def value_cases(tier, rng, prefix, conv=False):
     for r in ex: add([[r]])
     for i in range(0, len(ex) - 2, 7):
         add([[ex[i], ex[i + 1]], [ex[i + 2]]])
-    if not conv:
-        for rs in [[[]], [[a], []], [[], [a]]]: add(rs)          # empty entries: outside the domain
+    for rs in [[[]], [[a], []], [[], [a]]]: add(rs)              # empty entries: outside the domain
     n = {"quick": 15000, "search": 30000, "thorough": 500000}[tier]
     if conv: n //= 2
     for _ in range(n):
@@ -219,8 +218,8 @@ def value_cases(tier, rng, prefix, conv=False):
     nbig = {"quick": 150, "search": 300, "thorough": 4000}[tier]
     for _ in range(nbig):
         add(rand_relations(rng, big=True))
-    if not conv:
-        nbad = {"quick": 6000, "search": 12000, "thorough": 200000}[tier]
+    if True:
+        nbad = {"quick": 6000, "search": 12000, "thorough": 200000}[tier] // (2 if conv else 1)
         for _ in range(nbad):
             rs = rand_relations(rng) or [[rand_relation(rng)]]
             i = rng.randrange(len(rs)); j = rng.randrange(len(rs[i]))
